@@ -1,12 +1,13 @@
 import CTV.Model.Scan
 import CTV.Gen.Migrate
+import CTV.Gen.Scan
 /-!
 # Migration pass (trillian/migrillian/core/controller.go `fetchTail`, trillian.go `addSequencedLeaves`)
 
 One `fetchTail` pass = C16's fetcher (`CTV.Model.Scan`, never continuous here: the controller implements continuity
 itself) + the `batches` channel + the submitters + the destination.
 
-* `fetch op`     – an action of the fetcher (`hand`, `resp`, `err`, `close`, `cancel`); a `resp` hands the fetched
+* `fetch op`     – an action of the fetcher (`hand`, `resp`, `err`, `abandon`, `close`, `cancel`); a `resp` hands the fetched
                    batch to the channel (`handler`: `batches <- b`),
 * `respDrop w k` – a `resp` whose batch the handler drops because the pass context is already cancelled
                    (`case <-cctx.Done()`),
@@ -14,6 +15,9 @@ itself) + the `batches` channel + the submitters + the destination.
                    order of the responses),
 * `ack j`        – `AddSequencedLeaves` for the batch in flight at `j` succeeded: the destination now holds, under
                    each index of the batch, the source's entry with the configured identity hash,
+* `ackPartial j refused` – the RPC succeeded but the destination refused the leaves with the listed indices (per-leaf status in an
+                   OK reply: Trillian answers so for an identity hash or an index that is already taken); the other leaves of the
+                   batch are stored; the submitter must treat the batch as failed (`rsp.Results` checked), so the pass cannot return nil,
 * `quota j`      – the destination answered `ResourceExhausted`: with the retry policy the batch stays in flight
                    (the submitter backs off and sends it again); without it this is a fatal error,
 * `fatal j`      – any other error: the submitter gives up, the pass is cancelled (`cancel()`), the batch is lost.
@@ -56,6 +60,7 @@ inductive POp where
   | respDrop (w k : Nat)
   | take (j b : Nat)
   | ack (j : Nat)
+  | ackPartial (j : Nat) (refused : List Nat)
   | quota (j : Nat)
   | fatal (j : Nat)
 deriving Repr, DecidableEq
@@ -70,7 +75,7 @@ def pinit (start end_ batch fetchers submitters : Nat) (dest : List Stored) : PS
 
 /-- ops of the fetcher that can occur inside a pass (no `Stop`, no growth, no matcher stage, contract-abiding server) -/
 def fetchOpOk : Op → Bool
-  | .hand _ | .resp _ _ | .err _ | .close | .cancel => true
+  | .hand _ | .resp _ _ | .err _ | .abandon _ | .close | .cancel => true
   | _ => false
 
 def giveUp (c : Cfg) (s : PSt) (j : Nat) (b : Batch) : PSt :=
@@ -98,6 +103,11 @@ def pstep (c : Cfg) (s : PSt) : POp → PSt
   | .ack j =>
     match s.subs[j]? with
     | some (some (lo, k)) => { s with subs := s.subs.set j none, acked := (lo, k) :: s.acked, dest := s.dest ++ storeBatch c lo k }
+    | _ => s
+  | .ackPartial j refused =>
+    match s.subs[j]? with
+    | some (some (lo, k)) =>
+      giveUp c { s with dest := s.dest ++ (storeBatch c lo k).filter (fun x => !refused.contains x.idx) } j (lo, k)
     | _ => s
   | .quota j =>
     match s.subs[j]? with
@@ -141,6 +151,58 @@ def gate (noCheck : Bool) (treeSize sthSize begin : Nat) (proofOk : Bool) : Gate
   else if treeSize = 0 then .proceed
   else if noCheck then .proceed
   else if proofOk then .proceed else .refused
+
+/-! ### the Controller's continuous loop (`Controller.Run`): position bookkeeping across passes -/
+
+/-- `Run`'s state between passes: its position (`pos`, 0 when `Run` is entered) and what the destination holds -/
+structure RunSt where
+  pos : Nat
+  dest : List Stored
+deriving Repr, DecidableEq
+
+/-- one iteration of the loop: the destination reports `treeSize`, the source's STH has `sth` entries, then anything
+may happen in the pass (`ops`; a refused gate is a pass with no ops) -/
+structure Iter where
+  newRun : Bool        -- `Run` is (re-)entered before this iteration (restart, new mastership): its position starts at 0 again
+  treeSize : Nat
+  sth : Nat
+  batch : Nat
+  fetchers : Nat
+  submitters : Nat
+  ops : List POp
+
+/-- `next, err := c.fetchTail(ctx, pos)`: nothing to do if the STH is not beyond the position; otherwise a pass over
+`[max(treeSize, pos), sth)`; success moves the position to `sth`, failure ends `Run` (a later `Run` starts from 0). -/
+def runIter (c : Cfg) (s0 : RunSt) (it : Iter) : RunSt :=
+  let s : RunSt := ⟨if it.newRun then 0 else s0.pos, s0.dest⟩
+  if it.sth ≤ s.pos then s else
+  let p := prun c (pinit (passStart true 0 it.treeSize s.pos) it.sth it.batch it.fetchers it.submitters s.dest) it.ops
+  if passOk p then ⟨it.sth, p.dest⟩ else ⟨0, p.dest⟩
+
+def runIters (c : Cfg) (s : RunSt) : List Iter → RunSt
+  | [] => s
+  | it :: t => runIters c (runIter c s it) t
+
+/-! ### `buildLogLeaf` -/
+
+/-- what can be wrong with a source entry -/
+inductive LeafKind where
+  | certOk | certNonFatal | certFatal   -- the MerkleTreeLeaf decodes; its certificate parses / parses with non-fatal errors / does not parse
+  | leafUndecodable                     -- leaf_input is not a MerkleTreeLeaf (or extra_data not a chain): not an RFC 6962 entry at all
+deriving Repr, DecidableEq
+
+/-- `buildLogLeaf`: fails exactly when the code's only error return fires (regenerated: the `RawLogEntryFromLeaf` error); otherwise
+the record is built from the index and the source bytes alone -/
+def buildLeaf (c : Cfg) (k : LeafKind) (i : Nat) : Option Stored :=
+  if k = .leafUndecodable ∧ Gen.buildLogLeafErrorReturns = ["rle, err := ct.RawLogEntryFromLeaf(index, entry) ;; err != nil"] then none
+  else if Gen.buildLogLeafErrorReturns = ["rle, err := ct.RawLogEntryFromLeaf(index, entry) ;; err != nil"] then some ⟨i, c.src i, c.idf i (c.src i)⟩
+  else none
+
+/-- end index of a pass: `Prepare`'s clamp of the configured end to the STH the gate sees -/
+def passEnd (sth cfgEnd : Nat) : Nat := if Gen.prepareResets sth cfgEnd then sth else cfgEnd
+
+/-- nominal pause before the `n`-th retry of a quota reply (before jitter, which adds less than the pause itself) -/
+def quotaPause (n : Nat) : Int := min (Gen.quotaBackoffMin * Gen.quotaBackoffFactor ^ n) Gen.quotaBackoffMax
 
 /-- The submitter's reaction to ResourceExhausted **as the code has it** (regenerated from trillian.go): the `switch` on the
 gRPC code asks for a retry, *and* the error value it returns for that is one `backoff.Retry` recognises as retryable. -/
